@@ -65,6 +65,22 @@ reg(part('memchr_top', 'src/memchr.rs', 'memchr', cfg='x86_64',
          # ingestible by Verus; X7 turned the trait impls into inherent ones): not extracted
          drop_items=['fn memrchr_iter', 'fn memrchr2_iter', 'fn memrchr3_iter', 'use core::iter::Rev']))
 reg(part('x86_64_memchr', 'src/arch/x86_64/memchr.rs', 'arch::x86_64::memchr'))
+# ---- X14 variants (iterator-adapter loops desugared to index loops): constructors brought under contract
+def clone_part(new, old, **extra):
+    p = dict(PARTS[old])
+    p = dict(p, name=new, tmpl=new, opts=dict(p['opts'], **extra))
+    PARTS[new] = p
+    return p
+
+
+X8_RK = [[['Some', '(', '&', 'first_byte', ')', '=>', 'first_byte'], 'Some(first_byte) => *first_byte', 'X8'],
+         [['Some', '(', '&', 'last_byte', ')', '=>', 'last_byte'], 'Some(last_byte) => *last_byte', 'X8']]
+clone_part('all_rabinkarp_x', 'all_rabinkarp', x14=True, rewrites=PARTS['all_rabinkarp']['opts']['rewrites'] + X8_RK)
+clone_part('all_packedpair_x', 'all_packedpair', x14=True)
+clone_part('s_all_packedpair_x', 's_all_packedpair', x14=True)
+clone_part('all_twoway_x', 'all_twoway', x14=True)
+reg(part('all_shiftor', 'src/arch/all/shiftor.rs', 'arch::all::shiftor', x14=True))
+
 # ---- aarch64 / wasm32 (text the host never compiles): intrinsics paths are redirected to the trusted ISA prelude
 ISA = [[['core', '::', 'arch', '::', 'aarch64'], 'crate::isa::aarch64', 'X13'], [['core', '::', 'arch', '::', 'wasm32'], 'crate::isa::wasm32', 'X13']]
 AARCH64 = dict(target_arch='aarch64', target_feature=['neon'], feature=['alloc'], target_endian='little', target_pointer_width='64')
@@ -139,6 +155,14 @@ BUILDS = {
                             'generic_packedpair', 'sse2_packedpair', 'avx2_packedpair', 'memmem_reexport', 'memmem_pre_full',
                             'memmem_glue', 'all_twoway'],
                      prelude=P0 + ['prelude/x_eqrk.vrs', 'prelude/x_pp.vrs', 'prelude/x_tw.vrs', 'prelude/x_glue.vrs']),
+    'dev_rkx': dict(parts=['ext', 'vector', 'all_mod', 'all_rabinkarp_x'], prelude=P0 + ['prelude/x_eqrk.vrs']),
+    'dev_ppx': dict(parts=BASE + ['stub_root', 'all_mod', 'all_packedpair_x', 'all_default_rank', 'generic_packedpair',
+                                  'sse2_packedpair', 'avx2_packedpair'], prelude=P0 + ['prelude/x_eqrk.vrs', 'prelude/x_pp.vrs']),
+    'dev_ppsx': dict(parts=['ext', 'stub_root', 's_vector', 's_all_mod', 's_all_packedpair_x', 'all_default_rank', 's_generic_packedpair',
+                            's_sse2_packedpair', 's_avx2_packedpair'], prelude=P0 + ['prelude/x_eqrk.vrs', 'prelude/x_pp.vrs']),
+    'dev_twx': dict(parts=['ext', 'vector', 'all_mod', 'stub_all_memchr', 'memmem_reexport', 'memmem_pre', 'all_twoway_x'],
+                    prelude=P0 + ['prelude/x_eqrk.vrs', 'prelude/x_tw.vrs']),
+    'dev_so': dict(parts=['ext', 'vector', 'all_mod', 'all_shiftor'], prelude=P0 + ['prelude/x_so.vrs']),
     # other targets (text the x86_64 host never compiles)
     'aarch64': dict(parts=['ext', 'vector', 'vector_neon', 'generic_memchr', 'all_memchr', 'neon_memchr', 'aarch64_memchr',
                            'memchr_top_aarch64', 'root_reexport', 'all_mod', 'all_packedpair', 'all_default_rank',
